@@ -86,8 +86,25 @@ func (g *pgen) newName(prefix string) string {
 	return fmt.Sprintf("%s%d", prefix, g.id)
 }
 
+// uni draws 0..n-1 uniformly. rapid's integer generators favour small magnitudes (a geometric bit
+// length), which would distort the grammar's weights; fair coins do not.
+func (g *pgen) uni(n int, label string) int {
+	k := 3
+	for (1 << uint(k-3)) < n {
+		k++
+	}
+	v := 0
+	for i := 0; i < k; i++ {
+		v <<= 1
+		if rapid.Bool().Draw(g.t, label) {
+			v |= 1
+		}
+	}
+	return v % n
+}
+
 func (g *pgen) pct(p int, label string) bool {
-	return rapid.IntRange(0, 99).Draw(g.t, label) < p
+	return g.uni(100, label) < p
 }
 
 func (g *pgen) lit() string {
@@ -95,7 +112,7 @@ func (g *pgen) lit() string {
 	if g.rsize >= 32 {
 		max = 1<<31 - 1 // rset takes the literal through an int; larger constants are another property's subject (C03)
 	}
-	switch rapid.IntRange(0, 9).Draw(g.t, "litclass") {
+	switch g.uni(10, "litclass") {
 	case 0:
 		return "0"
 	case 1:
@@ -113,13 +130,13 @@ func (g *pgen) lit() string {
 }
 
 func (g *pgen) pickVal() gvar {
-	return g.vals[rapid.IntRange(0, len(g.vals)-1).Draw(g.t, "var")]
+	return g.vals[g.uni(len(g.vals), "var")]
 }
 
 var unsupportedOps = []string{"-", "&", "|", "^", "/", "%", "<<"}
 
 func (g *pgen) expr(depth int) string {
-	k := rapid.IntRange(0, 99).Draw(g.t, "exprkind")
+	k := g.uni(100, "exprkind")
 	if depth <= 0 && k >= 55 {
 		k = k % 55
 	}
@@ -202,7 +219,7 @@ func (g *pgen) cond() string {
 		}
 		return "false"
 	}
-	switch rapid.IntRange(0, 9).Draw(g.t, "condkind") {
+	switch g.uni(10, "condkind") {
 	case 0:
 		return "true"
 	case 1:
@@ -231,7 +248,7 @@ func (g *pgen) block(n int, c stmtCtx, tail func()) {
 }
 
 func (g *pgen) stmt(c stmtCtx) {
-	k := rapid.IntRange(0, 99).Draw(g.t, "stmtkind")
+	k := g.uni(100, "stmtkind")
 	if c.depth >= 2 && k >= 62 && k < 90 {
 		k = k % 62
 	}
@@ -251,17 +268,25 @@ func (g *pgen) stmt(c stmtCtx) {
 		g.emit("%s, %s = %s, %s", a, b, g.expr(1), g.expr(1))
 	case k < 48: // ++ / --
 		v := g.pickVal()
-		if g.hoists(v) && !g.pct(8, "allowHoist") {
+		op := "++"
+		if g.pct(40, "dec") {
+			op = "--"
+		}
+		if g.hoists(v) && !g.pct(6, "allowHoist") {
 			// pick, if there is one, a variable for which the mechanism does not fire
 			for _, w := range g.vals {
 				if !g.hoists(w) {
 					v = w
 				}
 			}
-		}
-		op := "++"
-		if g.pct(40, "dec") {
-			op = "--"
+			if g.hoists(v) { // none: the same effect through an assignment
+				if op == "++" || g.rsize > 16 {
+					g.emit("%s = %s + 1", v.name, v.name)
+				} else {
+					g.emit("%s = %s + %d", v.name, v.name, uint64(1)<<uint(g.rsize)-1)
+				}
+				return
+			}
 		}
 		g.emit("%s%s", v.name, op)
 	case k < 54: // := into a register name
@@ -289,7 +314,7 @@ func (g *pgen) stmt(c stmtCtx) {
 	case k < 84: // inner loop, always leaving after a bounded number of rounds in Go semantics
 		rc := g.pushCtx()
 		nvals := len(g.vals)
-		switch rapid.IntRange(0, 2).Draw(g.t, "loopkind") {
+		switch g.uni(3, "loopkind") {
 		case 0: // for { ...; break }
 			g.emit("for {")
 			g.inLoop++
@@ -358,7 +383,7 @@ func (g *pgen) stmt(c stmtCtx) {
 			g.emit("%s = %s", g.pickVal().name, g.expr(2))
 			return
 		}
-		op := rapid.SampledFrom(unsupportedOps).Draw(g.t, "uop")
+		op := unsupportedOps[g.uni(len(unsupportedOps), "uop")]
 		rhs := g.lit()
 		if (op == "/" || op == "%") && rhs == "0" {
 			rhs = "3"
@@ -386,7 +411,7 @@ func (g *pgen) stmt(c stmtCtx) {
 func (g *pgen) caseBody(c stmtCtx) {
 	n := rapid.IntRange(1, 2).Draw(g.t, "ncasebody")
 	for i := 0; i < n; i++ {
-		switch rapid.IntRange(0, 3).Draw(g.t, "casestmt") {
+		switch g.uni(4, "casestmt") {
 		case 0:
 			v := g.pickVal()
 			if g.hoists(v) && !g.pct(8, "allowHoist") {
@@ -503,7 +528,7 @@ func (g *pgen) routine(gidOut []int, gidIn []int, extra func()) {
 			sum()
 		}
 		v := g.vals[rapid.IntRange(0, nreg-1).Draw(g.t, "ctr")]
-		switch rapid.IntRange(0, 2).Draw(g.t, "advance") {
+		switch g.uni(3, "advance") {
 		case 0:
 			g.emit("%s++", v.name)
 		case 1:
@@ -556,7 +581,7 @@ func GenProgram(t *rapid.T, o GenOpts, rsize int) (src string, mpm bool) {
 		for i := 0; i < nw; i++ {
 			kind := "plain"
 			if !o.Faithful {
-				switch rapid.IntRange(0, 9).Draw(t, "workerkind") {
+				switch g.uni(10, "workerkind") {
 				case 0, 1, 2:
 					kind = "chan"
 				case 3:
